@@ -457,3 +457,823 @@ Proof.
 Qed.
 
 End Strings.
+
+(* ------------------------------------------------------------------------------------------ *)
+(* C. the restriction clause                                                                   *)
+
+Definition strict_clause (rs : list restriction) (u : wuser) (c : cid) : bool :=
+  existsb (restr_allows u c) rs.
+
+(* validateTypeRestrictions + the restriction part of validateCondition, on a parsed user *)
+Definition coded_clause (rs : list restriction) (u : wuser) (c : cid) : bool :=
+  type_restr_ok rs (subj_of_wuser u) &&
+  (if N.eqb c 0 then nocond_ok rs (subj_of_wuser u)
+   else existsb (fun d => N.eqb (r_type d) (wuser_type u) && N.eqb (r_cond d) c) rs).
+
+Definition form_match (u : wuser) (d : restriction) : bool :=
+  N.eqb (r_type d) (wuser_type u) && kind_eqb (r_kind d) (wuser_kind u).
+
+Lemma type_restr_ok_form rs u : type_restr_ok rs (subj_of_wuser u) = existsb (form_match u) rs.
+Proof. unfold type_restr_ok, form_match. destruct u; reflexivity. Qed.
+
+Lemma nocond_ok_char rs u :
+  nocond_ok rs (subj_of_wuser u) =
+  strict_clause rs u 0 ||
+  match u with
+  | WSet _ _ _ => existsb (fun d => N.eqb (r_type d) (wuser_type u) && kind_eqb (r_kind d) RObj && N.eqb (r_cond d) 0) rs
+  | _ => false
+  end.
+Proof.
+  unfold nocond_ok, strict_clause, restr_allows. destruct u as [t id|t|t id r]; cbn [subj_of_wuser wuser_type wuser_kind subject_type otype].
+  - rewrite orb_false_r. apply existsb_ext_in. intros d _.
+    destruct (r_kind d), (N.eqb (r_cond d) 0), (N.eqb (r_type d) t); reflexivity.
+  - rewrite orb_false_r. apply existsb_ext_in. intros d _.
+    destruct (r_kind d), (N.eqb (r_cond d) 0), (N.eqb (r_type d) t); reflexivity.
+  - rewrite <- existsb_or. apply existsb_ext_in. intros d _.
+    destruct (r_kind d) as [| |r0]; cbn [kind_eqb];
+      destruct (N.eqb (r_cond d) 0), (N.eqb (r_type d) t); try destruct (N.eqb r0 r); reflexivity.
+Qed.
+
+Lemma strict_form rs u c : strict_clause rs u c = true -> existsb (form_match u) rs = true.
+Proof.
+  apply existsb_impl. intros d H. unfold restr_allows in H. unfold form_match.
+  apply andb_true_iff in H as [H _]. exact H.
+Qed.
+
+Lemma strict_cond rs u c : strict_clause rs u c = true ->
+  existsb (fun d => N.eqb (r_type d) (wuser_type u) && N.eqb (r_cond d) c) rs = true.
+Proof.
+  apply existsb_impl. intros d H. unfold restr_allows in H.
+  apply andb_true_iff in H as [H H2]. apply andb_true_iff in H as [H1 _]. rewrite H1, H2. reflexivity.
+Qed.
+
+(* the clause as coded = the strict clause, or one of the two laxities *)
+Theorem coded_clause_char rs u c :
+  coded_clause rs u c =
+  strict_clause rs u c || cond_any_restriction_of_type rs u c || nocond_via_plain_restriction rs u c.
+Proof.
+  unfold coded_clause, cond_any_restriction_of_type, nocond_via_plain_restriction.
+  rewrite type_restr_ok_form. fold (form_match u). fold (strict_clause rs u c). fold (strict_clause rs u 0).
+  destruct (N.eqb c 0) eqn:Ec; cbn [negb andb].
+  - apply N.eqb_eq in Ec. subst c. rewrite orb_false_r, nocond_ok_char.
+    destruct (strict_clause rs u 0) eqn:Es.
+    + rewrite (strict_form _ _ _ Es). reflexivity.
+    + cbn [orb negb]. destruct u; cbn [andb]; rewrite ?andb_false_r; try reflexivity.
+      rewrite andb_true_r. reflexivity.
+  - rewrite orb_false_r. destruct (strict_clause rs u c) eqn:Es.
+    + rewrite (strict_form _ _ _ Es), (strict_cond _ _ _ Es). reflexivity.
+    + cbn [orb negb]. rewrite andb_true_r. reflexivity.
+Qed.
+
+Theorem strict_implies_coded rs u c : strict_clause rs u c = true -> coded_clause rs u c = true.
+Proof. intro H. rewrite coded_clause_char, H. reflexivity. Qed.
+
+(* under no_mix_rs the laxities cannot show *)
+Lemma no_mix_no_cond_any rs u c : no_mix_rs rs = true -> cond_any_restriction_of_type rs u c = false.
+Proof.
+  intro Hmix. unfold cond_any_restriction_of_type.
+  destruct (N.eqb c 0); cbn [negb andb]; [reflexivity|].
+  destruct (existsb (fun d => N.eqb (r_type d) (wuser_type u) && kind_eqb (r_kind d) (wuser_kind u)) rs) eqn:E1; cbn [andb]; [|reflexivity].
+  destruct (existsb (restr_allows u c) rs) eqn:E2; cbn [negb andb]; [reflexivity|].
+  destruct (existsb (fun d => N.eqb (r_type d) (wuser_type u) && N.eqb (r_cond d) c) rs) eqn:E3; [|reflexivity].
+  exfalso.
+  apply existsb_exists in E1 as (d1 & Hin1 & H1). apply andb_true_iff in H1 as [H1t H1k].
+  apply existsb_exists in E3 as (d2 & Hin2 & H2). apply andb_true_iff in H2 as [H2t H2c].
+  apply N.eqb_eq in H1t, H2t, H2c. apply kind_eqb_eq in H1k.
+  assert (existsb (restr_allows u c) rs = true) as Hcontra; [|congruence].
+  destruct (kind_eqb (r_kind d2) (wuser_kind u)) eqn:Ek.
+  - apply existsb_exists. exists d2. split; [exact Hin2|]. unfold restr_allows.
+    rewrite H2t, H2c, Ek, !N.eqb_refl. reflexivity.
+  - unfold no_mix_rs in Hmix. rewrite forallb_forall in Hmix. specialize (Hmix d2 Hin2).
+    rewrite forallb_forall in Hmix. specialize (Hmix d1 Hin1).
+    rewrite H2t, H1t, N.eqb_refl, H1k, Ek in Hmix. cbn [negb andb] in Hmix.
+    apply existsb_exists in Hmix as (d3 & Hin3 & H3).
+    apply andb_true_iff in H3 as [H3 H3c]. apply andb_true_iff in H3 as [H3t H3k].
+    apply existsb_exists. exists d3. split; [exact Hin3|]. unfold restr_allows.
+    apply N.eqb_eq in H3t, H3c. rewrite H3t, H3k, H3c, H2c, !N.eqb_refl. reflexivity.
+Qed.
+
+Lemma no_mix_no_nocond_via rs u c : no_mix_rs rs = true -> nocond_via_plain_restriction rs u c = false.
+Proof.
+  intro Hmix. unfold nocond_via_plain_restriction.
+  destruct (N.eqb c 0); cbn [andb]; [|reflexivity].
+  destruct u as [t id|t|t id r]; try reflexivity.
+  set (u := WSet t id r).
+  destruct (existsb (fun d => N.eqb (r_type d) (wuser_type u) && kind_eqb (r_kind d) (wuser_kind u)) rs) eqn:E1; cbn [andb]; [|reflexivity].
+  destruct (existsb (restr_allows u 0) rs) eqn:E2; cbn [negb andb]; [reflexivity|].
+  destruct (existsb (fun d => N.eqb (r_type d) (wuser_type u) && kind_eqb (r_kind d) RObj && N.eqb (r_cond d) 0) rs) eqn:E3; [|reflexivity].
+  exfalso.
+  apply existsb_exists in E1 as (d1 & Hin1 & H1). apply andb_true_iff in H1 as [H1t H1k].
+  apply existsb_exists in E3 as (d2 & Hin2 & H2). apply andb_true_iff in H2 as [H2 H2c].
+  apply andb_true_iff in H2 as [H2t H2k].
+  apply N.eqb_eq in H1t, H2t, H2c. apply kind_eqb_eq in H1k, H2k.
+  assert (existsb (restr_allows u 0) rs = true) as Hcontra; [|congruence].
+  unfold no_mix_rs in Hmix. rewrite forallb_forall in Hmix. specialize (Hmix d2 Hin2).
+  rewrite forallb_forall in Hmix. specialize (Hmix d1 Hin1).
+  rewrite H2t, H1t, N.eqb_refl, H1k, H2k in Hmix. cbn [wuser_kind u kind_eqb negb andb] in Hmix.
+  apply existsb_exists in Hmix as (d3 & Hin3 & H3).
+  apply andb_true_iff in H3 as [H3 H3c]. apply andb_true_iff in H3 as [H3t H3k].
+  apply existsb_exists. exists d3. split; [exact Hin3|]. unfold restr_allows.
+  apply N.eqb_eq in H3t, H3c. rewrite H3t, H3c, H2c. cbn [wuser_kind u]. rewrite H3k, !N.eqb_refl. reflexivity.
+Qed.
+
+(* ------------------------------------------------------------------------------------------ *)
+(* D. context typing on maps                                                                   *)
+
+Lemma plookup_some_in {A : Type} k (l : list (bytes * A)) v : plookup k l = Some v -> In (k, v) l.
+Proof.
+  induction l as [|[k' v'] l IH]; cbn [plookup]; [discriminate|].
+  destruct (beqb k' k) eqn:E.
+  - intro H. inversion H; subst. apply beqb_eq in E. subst. left. reflexivity.
+  - intro H. right. apply IH. exact H.
+Qed.
+
+Lemma plookup_in_nodup {A : Type} k (l : list (bytes * A)) v :
+  keys_nodup l = true -> In (k, v) l -> plookup k l = Some v.
+Proof.
+  induction l as [|[k' v'] l IH]; cbn [keys_nodup plookup]; [intros _ []|].
+  intros Hnd [Hin|Hin].
+  - inversion Hin; subst. rewrite beqb_refl. reflexivity.
+  - apply andb_true_iff in Hnd as [Hn Hnd]. destruct (beqb k' k) eqn:E.
+    + exfalso. apply beqb_eq in E. subst k'. apply negb_true_iff in Hn.
+      assert (existsb (fun kv : bytes * A => beqb (fst kv) k) l = true) as X.
+      { apply existsb_exists. exists (k, v). split; [exact Hin|]. cbn [fst]. apply beqb_refl. }
+      congruence.
+    + apply IH; assumption.
+Qed.
+
+Theorem ctx_ok_fits ps ctx :
+  keys_nodup ps = true -> keys_nodup ctx = true -> ctx_ok ps ctx = ctx_fits ps ctx.
+Proof.
+  intros Hps Hctx. apply eq_true_iff_eq. unfold ctx_ok, ctx_fits. split.
+  - intro H. apply andb_true_iff in H as [H HK]. apply andb_true_iff in H as [HA HC].
+    rewrite forallb_forall in *. intros [k v] Hin. cbn [fst snd].
+    specialize (HA _ Hin). cbn [fst snd] in HA. rewrite HA. cbn [andb].
+    specialize (HK _ Hin). cbn [fst] in HK.
+    destruct (plookup k ps) as [t|] eqn:Hl; [|discriminate].
+    apply plookup_some_in in Hl.
+    unfold cast_ok in HC. destruct ctx as [|kv0 ctx']; [destruct Hin|].
+    destruct ps as [|p0 ps']; [destruct Hl|].
+    rewrite forallb_forall in HC. specialize (HC _ Hl). cbn [fst snd] in HC.
+    rewrite (plookup_in_nodup _ _ _ Hctx Hin) in HC. exact HC.
+  - intro H. rewrite forallb_forall in H. rewrite !andb_true_iff. repeat split.
+    + rewrite forallb_forall. intros kv Hin. specialize (H _ Hin). destruct kv as [k v].
+      apply andb_true_iff in H as [H _]. exact H.
+    + unfold cast_ok. destruct ctx as [|[k0 v0] ctx'] eqn:Ectx; [reflexivity|].
+      destruct ps as [|p0 ps'] eqn:Eps.
+      * specialize (H (k0, v0) (or_introl eq_refl)). cbn [fst snd plookup] in H.
+        rewrite andb_false_r in H. discriminate.
+      * rewrite forallb_forall. intros [k' t'] Hp. cbn [fst snd].
+        destruct (plookup k' ((k0, v0) :: ctx')) as [v'|] eqn:Hl; [|reflexivity].
+        apply plookup_some_in in Hl. specialize (H _ Hl). cbn [fst snd] in H.
+        rewrite (plookup_in_nodup _ _ _ Hps Hp) in H.
+        apply andb_true_iff in H as [_ H]. exact H.
+    + rewrite forallb_forall. intros [k v] Hin. specialize (H _ Hin). cbn [fst snd] in *.
+      destruct (plookup k ps); [reflexivity|]. rewrite andb_false_r in H. discriminate.
+Qed.
+
+(* ------------------------------------------------------------------------------------------ *)
+(* F. the read-time part is Sem/Valid.v                                                        *)
+
+Lemma cd_lookup_in c cds ps : cd_lookup c cds = Some ps -> In (c, ps) cds.
+Proof.
+  induction cds as [|[c' ps'] cds IH]; cbn [cd_lookup]; [discriminate|].
+  destruct (N.eqb c' c) eqn:E.
+  - intro H. inversion H; subst. apply N.eqb_eq in E. subst. left. reflexivity.
+  - intro H. right. apply IH. exact H.
+Qed.
+
+Lemma cd_lookup_ids c cds ps : cd_lookup c cds = Some ps -> existsb (N.eqb c) (cond_ids cds) = true.
+Proof.
+  intro H. apply cd_lookup_in in H. apply existsb_exists. exists c. split; [|apply N.eqb_refl].
+  unfold cond_ids. change c with (fst (c, ps)). apply in_map. exact H.
+Qed.
+
+(* ValidateTupleForRead as staged in ValidWrite.v accepts exactly what valid_for_read accepts,
+   plus the context checks that Valid.v leaves out *)
+Theorem validate_read_valid_for_read e m cds w :
+  accepted (validate_read e m cds w) =
+  match rt_cond w with
+  | None => valid_for_read m (cond_ids cds) (vtuple_of e w 0)
+  | Some wc =>
+      match nlookup (e_conds e) (wc_name wc) with
+      | None => false
+      | Some c =>
+          match cd_lookup c cds with
+          | None => false
+          | Some ps => negb (forbidden (wc_name wc)) && negb (N.eqb c 0) &&
+                       valid_for_read m (cond_ids cds) (vtuple_of e w c) && ctx_ok ps (wc_ctx wc)
+          end
+      end
+  end.
+Proof.
+  unfold validate_read, valid_for_read, tupleset_stage.
+  cbn [vtuple_of t_obj t_rel t_sub t_cond otype].
+  generalize (subject_of_user e (rt_user w)). intro s.
+  generalize (nget (e_types e) (get_type (rt_obj w))). intro ot.
+  generalize (nget (e_rels e) (rt_rel w)). intro r.
+  destruct (Vocab.get_relation m ot r) as [rd|].
+  - set (TS := if is_tupleset m ot r then is_this (rd_rw rd) && match s with SObj _ => true | _ => false end else true).
+    destruct TS; cbn [negb andb].
+    + destruct (type_restr_ok (rd_restr rd) s); cbn [negb andb].
+      * destruct (rt_cond w) as [wc|].
+        -- destruct (forbidden (wc_name wc)); cbn [negb andb].
+           ++ destruct (nlookup (e_conds e) (wc_name wc)) as [c|]; [|reflexivity].
+              destruct (cd_lookup c cds); reflexivity.
+           ++ destruct (nlookup (e_conds e) (wc_name wc)) as [c|]; [|reflexivity].
+              destruct (cd_lookup c cds) as [ps|]; [|reflexivity].
+              destruct (N.eqb c 0); cbn [negb andb]; [reflexivity|].
+              destruct (cond_ok (cond_ids cds) (rd_restr rd) s c); cbn [negb andb]; [|reflexivity].
+              destruct (ctx_ok ps (wc_ctx wc)); reflexivity.
+        -- cbn. destruct (nocond_ok (rd_restr rd) s); reflexivity.
+      * destruct (rt_cond w) as [wc|]; [|reflexivity].
+        destruct (nlookup (e_conds e) (wc_name wc)) as [c|]; [|reflexivity].
+        destruct (cd_lookup c cds); [|reflexivity]. rewrite !andb_false_r. reflexivity.
+    + destruct (rt_cond w) as [wc|]; [|reflexivity].
+      destruct (nlookup (e_conds e) (wc_name wc)) as [c|]; [|reflexivity].
+      destruct (cd_lookup c cds); [|reflexivity]. rewrite !andb_false_r. reflexivity.
+  - destruct (rt_cond w) as [wc|]; [|reflexivity].
+    destruct (nlookup (e_conds e) (wc_name wc)) as [c|]; [|reflexivity].
+    destruct (cd_lookup c cds); [|reflexivity]. rewrite !andb_false_r. reflexivity.
+Qed.
+
+(* ------------------------------------------------------------------------------------------ *)
+(* E. what the validators accept, exactly                                                      *)
+
+Definition t_size (t : wtuple) : N := match w_cond t with Some (_, _, s) => s | None => 0 end.
+
+Lemma find_type_in m t d : find_type m t = Some d -> In d m /\ td_type d = t.
+Proof.
+  induction m as [|d' m IH]; cbn [find_type]; [discriminate|].
+  destruct (N.eqb (td_type d') t) eqn:E.
+  - intro H. inversion H; subst. apply N.eqb_eq in E. split; [left; reflexivity|exact E].
+  - intro H. destruct (IH H) as [H1 H2]. split; [right; exact H1|exact H2].
+Qed.
+
+Lemma find_rel_in l r rd : find_rel l r = Some rd -> In rd l /\ rd_rel rd = r.
+Proof.
+  induction l as [|d' l IH]; cbn [find_rel]; [discriminate|].
+  destruct (N.eqb (rd_rel d') r) eqn:E.
+  - intro H. inversion H; subst. apply N.eqb_eq in E. split; [left; reflexivity|exact E].
+  - intro H. destruct (IH H) as [H1 H2]. split; [right; exact H1|exact H2].
+Qed.
+
+Lemma get_relation_in m t r rd :
+  Vocab.get_relation m t r = Some rd -> In (t, rd) (all_reldefs m) /\ rd_rel rd = r.
+Proof.
+  unfold Vocab.get_relation. destruct (find_type m t) as [d|] eqn:Hf; [|discriminate].
+  intro H. apply find_type_in in Hf as [Hd Ht]. apply find_rel_in in H as [Hrd Hr].
+  split; [|exact Hr]. unfold all_reldefs. apply in_flat_map. exists d. split; [exact Hd|].
+  rewrite <- Ht. apply (in_map (fun rd0 => (td_type d, rd0))). exact Hrd.
+Qed.
+
+Section Main.
+Variable e : env.
+Variable m : model.
+Variable cds : cdefs.
+Hypothesis Hwf : env_wf e = true.
+Hypothesis Hrwf : restr_wf m = true.
+Hypothesis Hts : tupleset_direct m = true.
+Hypothesis Hcds : cds_wf cds = true.
+
+Definition core (clause : list restriction -> wuser -> cid -> bool) (limit : N) (t : wtuple) : bool :=
+  match Vocab.get_relation m (w_ot t) (w_rel t) with
+  | None => false
+  | Some rd =>
+      clause (rd_restr rd) (w_user t) (w_cid t) &&
+      (if is_tupleset m (w_ot t) (w_rel t) then concrete (w_user t) else true) &&
+      cond_clause cds limit t
+  end.
+
+Lemma allowed_with_core clause limit t :
+  allowed_with m cds clause limit t = core clause limit t && negb (self_pointing t).
+Proof. unfold allowed_with, core. destruct (Vocab.get_relation m (w_ot t) (w_rel t)); reflexivity. Qed.
+
+Lemma core_limit clause limit t :
+  core clause limit t = core clause (t_size t) t && (t_size t <=? limit).
+Proof.
+  unfold core, cond_clause, t_size. destruct (Vocab.get_relation m (w_ot t) (w_rel t)) as [rd|]; [|reflexivity].
+  destruct (w_cond t) as [[[c ctx] s]|].
+  - rewrite N.leb_refl. rewrite andb_true_r, !andb_assoc. reflexivity.
+  - assert (0 <=? limit = true) as E by (apply N.leb_le; lia). rewrite E.
+    change (0 <=? 0) with true. rewrite !andb_true_r. reflexivity.
+Qed.
+
+Lemma ts_direct ot r rd :
+  Vocab.get_relation m ot r = Some rd -> is_tupleset m ot r = true -> is_this (rd_rw rd) = true.
+Proof.
+  intros Hg Hi. apply get_relation_in in Hg as [Hin Hr]. unfold tupleset_direct in Hts.
+  rewrite forallb_forall in Hts. specialize (Hts _ Hin). cbn [fst snd] in Hts.
+  rewrite Hr, Hi in Hts. exact Hts.
+Qed.
+
+Lemma vtuple_of_facts w ot oid r u c :
+  p_object e (rt_obj w) = Some (ot, oid) -> nlookup (e_rels e) (rt_rel w) = Some r ->
+  p_user e (rt_user w) = Some u ->
+  vtuple_of e w c = {| t_obj := {| otype := ot; oid := 0 |}; t_rel := r;
+                       t_sub := subj_of_wuser u; t_cond := c; t_ceval := T |}.
+Proof.
+  intros Hpo Hr Hpu. unfold vtuple_of.
+  destruct (p_object_valid e Hwf _ _ _ Hpo) as (_ & _ & Hl & _).
+  unfold nget at 1 2. unfold get_type. rewrite Hl, Hr. rewrite (subject_of_p_user e Hwf _ _ Hpu).
+  reflexivity.
+Qed.
+
+Lemma valid_for_read_struct conds ot r u c :
+  valid_for_read m conds {| t_obj := {| otype := ot; oid := 0 |}; t_rel := r;
+                            t_sub := subj_of_wuser u; t_cond := c; t_ceval := T |} =
+  match Vocab.get_relation m ot r with
+  | None => false
+  | Some rd =>
+      (if is_tupleset m ot r then is_this (rd_rw rd) && concrete u else true) &&
+      existsb (form_match u) (rd_restr rd) &&
+      (if N.eqb c 0 then nocond_ok (rd_restr rd) (subj_of_wuser u)
+       else existsb (N.eqb c) conds &&
+            existsb (fun d => N.eqb (r_type d) (wuser_type u) && N.eqb (r_cond d) c) (rd_restr rd))
+  end.
+Proof.
+  unfold valid_for_read, cond_ok. cbn [t_obj t_rel t_sub t_cond otype].
+  destruct (Vocab.get_relation m ot r) as [rd|]; [|reflexivity].
+  rewrite type_restr_ok_form. destruct u; reflexivity.
+Qed.
+
+Lemma known_cond_clean n c : nlookup (e_conds e) n = Some c -> forbidden n = false.
+Proof.
+  intro H. apply nlookup_in in H. assert (X := wf_conds e Hwf). rewrite forallb_forall in X.
+  specialize (X _ H). cbn [fst] in X. apply negb_true_iff in X. exact X.
+Qed.
+
+Lemma cds_params_nodup c ps : cd_lookup c cds = Some ps -> keys_nodup ps = true.
+Proof.
+  intro H. apply cd_lookup_in in H. unfold cds_wf in Hcds. rewrite forallb_forall in Hcds.
+  exact (Hcds _ H).
+Qed.
+
+(* ValidateTupleForWrite (what a contextual tuple goes through) on the parsed tuple *)
+Theorem valid_ctx_struct w : rt_wf w = true ->
+  valid_ctx_tuple e m cds w =
+  match parse e w with Some t => core coded_clause (t_size t) t | None => false end.
+Proof.
+  intro Hrt. unfold valid_ctx_tuple, validate_tuple.
+  destruct (validate_uor e m w) as [x|] eqn:Huor.
+  - (* refused by ValidateUserObjectRelation *)
+    cbn [accepted]. destruct (parse e w) as [t|] eqn:Hp; [|reflexivity].
+    destruct (core coded_clause (t_size t) t) eqn:Hc; [exfalso|reflexivity].
+    unfold parse in Hp.
+    destruct (p_object e (rt_obj w)) as [[ot oid]|] eqn:Hpo; [|discriminate].
+    destruct (nlookup (e_rels e) (rt_rel w)) as [r|] eqn:Hr; [|discriminate].
+    destruct (p_user e (rt_user w)) as [u|] eqn:Hpu; [|discriminate].
+    destruct (p_cond e (rt_cond w)) as [pc|]; [|discriminate].
+    destruct (beqb oid wildcard) eqn:Hw; [discriminate|]. inversion Hp; subst t. clear Hp.
+    unfold core in Hc. cbn [w_ot w_rel w_user] in Hc.
+    destruct (Vocab.get_relation m ot r) as [rd|] eqn:Hg; [|discriminate].
+    apply andb_true_iff in Hc as [Hc _]. apply andb_true_iff in Hc as [Hcl _].
+    unfold coded_clause in Hcl. apply andb_true_iff in Hcl as [Htr _].
+    rewrite type_restr_ok_form in Htr. apply existsb_exists in Htr as (d & Hin & Hd).
+    unfold form_match in Hd. apply andb_true_iff in Hd as [Hdt Hdk].
+    apply N.eqb_eq in Hdt. apply kind_eqb_eq in Hdk.
+    destruct (get_relation_in _ _ _ _ Hg) as [Hall _].
+    unfold restr_wf in Hrwf. rewrite forallb_forall in Hrwf. specialize (Hrwf _ Hall). cbn [snd] in Hrwf.
+    rewrite forallb_forall in Hrwf. specialize (Hrwf _ Hin). unfold restr_wf_one in Hrwf.
+    assert (find_type m ot <> None) as Hfo.
+    { unfold Vocab.get_relation in Hg. destruct (find_type m ot); [discriminate|discriminate]. }
+    assert (validate_user e m (rt_user w) = None) as Hvu.
+    { apply (validate_user_iff e m Hwf). exists u. split; [exact Hpu|]. rewrite <- Hdt. split.
+      - destruct (find_type m (r_type d)); [discriminate|discriminate].
+      - intros t' id' r' E. subst u. cbn [wuser_kind] in Hdk. cbn [wuser_type] in Hdt.
+        rewrite Hdk in Hrwf. destruct (find_type m (r_type d)); [|discriminate].
+        rewrite <- Hdt. exact Hrwf. }
+    assert (validate_object e m (rt_obj w) = None) as Hvo.
+    { apply (validate_object_iff e m Hwf). exists ot, oid. repeat split; try assumption.
+      intro E. rewrite E, beqb_refl in Hw. discriminate. }
+    assert (validate_relation e m (rt_obj w) (rt_rel w) = None) as Hvr.
+    { apply (validate_relation_iff e m Hwf _ _ _ _ Hpo Hfo). exists r. split; [exact Hr|].
+      unfold rel_defined. rewrite Hg. reflexivity. }
+    unfold validate_uor in Huor. rewrite Hvu, Hvo, Hvr in Huor. discriminate.
+  - (* well-formed *)
+    unfold validate_uor in Huor.
+    destruct (validate_user e m (rt_user w)) eqn:Hu; [discriminate|].
+    destruct (validate_object e m (rt_obj w)) eqn:Ho; [discriminate|].
+    apply (validate_user_iff e m Hwf) in Hu as (u & Hpu & Hfu & Hru).
+    apply (validate_object_iff e m Hwf) in Ho as (ot & oid & Hpo & Hne & Hfo).
+    apply (validate_relation_iff e m Hwf _ _ _ _ Hpo Hfo) in Huor as (r & Hr & Hrd).
+    rewrite validate_read_valid_for_read.
+    unfold parse. rewrite Hpo, Hr, Hpu.
+    assert (beqb oid wildcard = false) as Hw.
+    { destruct (beqb oid wildcard) eqn:E; [apply beqb_eq in E; contradiction|reflexivity]. }
+    rewrite Hw. unfold rel_defined in Hrd.
+    destruct (Vocab.get_relation m ot r) as [rd|] eqn:Hg; [|discriminate].
+    assert (is_tupleset m ot r = true -> is_this (rd_rw rd) = true) as Hdir by (apply ts_direct; exact Hg).
+    unfold rt_wf in Hrt.
+    destruct (rt_cond w) as [wc|] eqn:Hc; cbn [p_cond].
+    + destruct (nlookup (e_conds e) (wc_name wc)) as [c|] eqn:Hn; [|reflexivity].
+      rewrite (vtuple_of_facts _ _ _ _ _ c Hpo Hr Hpu), valid_for_read_struct.
+      unfold core, t_size, cond_clause, coded_clause. cbn [w_ot w_rel w_user w_cid w_cond].
+      rewrite Hg, type_restr_ok_form, (known_cond_clean _ _ Hn). cbn [negb andb].
+      destruct (cd_lookup c cds) as [ps|] eqn:Hps.
+      * rewrite (cd_lookup_ids _ _ _ Hps), (ctx_ok_fits _ _ (cds_params_nodup _ _ Hps) Hrt), N.leb_refl.
+        destruct (N.eqb c 0); cbn [negb andb]; [rewrite !andb_false_r; reflexivity|].
+        destruct (is_tupleset m ot r); [rewrite (Hdir eq_refl)|];
+          destruct (concrete u), (existsb (form_match u) (rd_restr rd)),
+            (existsb (fun d => N.eqb (r_type d) (wuser_type u) && N.eqb (r_cond d) c) (rd_restr rd)),
+            (ctx_fits ps (wc_ctx wc)); reflexivity.
+      * rewrite !andb_false_r. reflexivity.
+    + rewrite (vtuple_of_facts _ _ _ _ _ 0 Hpo Hr Hpu), valid_for_read_struct.
+      unfold core, t_size, cond_clause, coded_clause. cbn [w_ot w_rel w_user w_cid w_cond N.eqb].
+      rewrite Hg, type_restr_ok_form.
+      destruct (is_tupleset m ot r); [rewrite (Hdir eq_refl)|];
+        destruct (concrete u), (existsb (form_match u) (rd_restr rd)),
+          (nocond_ok (rd_restr rd) (subj_of_wuser u)); reflexivity.
+Qed.
+
+Lemma parsed_size w t : parse e w = Some t -> ctx_size w = t_size t.
+Proof.
+  unfold parse. destruct (p_object e (rt_obj w)) as [[ot oid]|]; [|discriminate].
+  destruct (nlookup (e_rels e) (rt_rel w)); [|discriminate].
+  destruct (p_user e (rt_user w)); [|discriminate].
+  unfold p_cond, ctx_size, t_size. destruct (rt_cond w) as [wc|].
+  - destruct (nlookup (e_conds e) (wc_name wc)); [|discriminate].
+    destruct (beqb oid wildcard); [discriminate|]. intro H. inversion H. reflexivity.
+  - destruct (beqb oid wildcard); [discriminate|]. intro H. inversion H. reflexivity.
+Qed.
+
+(* what distinguishes Write from a contextual tuple: validateNotImplicit and the size limit *)
+Theorem write_vs_ctx limit w :
+  valid_for_write e m cds limit w =
+  valid_ctx_tuple e m cds w && negb (implicit w) && (ctx_size w <=? limit).
+Proof.
+  unfold valid_for_write, valid_ctx_tuple, validate_write.
+  destruct (validate_tuple e m cds w); [reflexivity|]. cbn [accepted andb].
+  destruct (implicit w); [reflexivity|]. cbn [negb andb].
+  rewrite N.leb_antisym. destruct (limit <? ctx_size w); reflexivity.
+Qed.
+
+Theorem valid_write_struct limit w : rt_wf w = true ->
+  valid_for_write e m cds limit w =
+  match parse e w with Some t => allowed_with m cds coded_clause limit t | None => false end.
+Proof.
+  intro Hrt. rewrite write_vs_ctx, (valid_ctx_struct _ Hrt).
+  destruct (parse e w) as [t|] eqn:Hp; [|reflexivity].
+  rewrite (implicit_self e Hwf _ _ Hp), (parsed_size _ _ Hp), allowed_with_core.
+  rewrite (core_limit coded_clause limit t).
+  destruct (core coded_clause (t_size t) t), (self_pointing t), (t_size t <=? limit); reflexivity.
+Qed.
+
+Lemma allowed_with_or f g limit t :
+  allowed_with m cds (fun rs u c => f rs u c || g rs u c) limit t =
+  allowed_with m cds f limit t || allowed_with m cds g limit t.
+Proof.
+  unfold allowed_with. destruct (Vocab.get_relation m (w_ot t) (w_rel t)) as [rd|]; [|reflexivity].
+  destruct (f (rd_restr rd) (w_user t) (w_cid t)), (g (rd_restr rd) (w_user t) (w_cid t)),
+    (if is_tupleset m (w_ot t) (w_rel t) then concrete (w_user t) else true),
+    (cond_clause cds limit t), (self_pointing t); reflexivity.
+Qed.
+
+Lemma allowed_with_ext f g limit t :
+  (forall rs u c, f rs u c = g rs u c) -> allowed_with m cds f limit t = allowed_with m cds g limit t.
+Proof.
+  intro H. unfold allowed_with. destruct (Vocab.get_relation m (w_ot t) (w_rel t)); [|reflexivity].
+  rewrite H. reflexivity.
+Qed.
+
+Lemma allowed_tuple_strict limit t : allowed_tuple m cds limit t = allowed_with m cds strict_clause limit t.
+Proof. reflexivity. Qed.
+
+(* THE characterisation: Write accepts exactly the allowed tuples and the two laxities *)
+Theorem valid_for_write_exact limit w : rt_wf w = true ->
+  valid_for_write e m cds limit w =
+  allowed_raw e m cds limit w || lax_cond_raw e m cds limit w || lax_nocond_raw e m cds limit w.
+Proof.
+  intro Hrt. rewrite (valid_write_struct _ _ Hrt). unfold allowed_raw, lax_cond_raw, lax_nocond_raw.
+  destruct (parse e w) as [t|]; [|reflexivity].
+  rewrite (allowed_with_ext _ _ _ _ coded_clause_char).
+  rewrite (allowed_with_or (fun rs u c => strict_clause rs u c || cond_any_restriction_of_type rs u c)
+                           nocond_via_plain_restriction).
+  rewrite (allowed_with_or strict_clause cond_any_restriction_of_type).
+  reflexivity.
+Qed.
+
+(* the same for contextual tuples: additionally no self rule and no size limit *)
+Theorem valid_ctx_exact w : rt_wf w = true ->
+  valid_ctx_tuple e m cds w =
+  match parse e w with
+  | Some t => core strict_clause (t_size t) t || core cond_any_restriction_of_type (t_size t) t ||
+              core nocond_via_plain_restriction (t_size t) t
+  | None => false
+  end.
+Proof.
+  intro Hrt. rewrite (valid_ctx_struct _ Hrt). destruct (parse e w) as [t|]; [|reflexivity].
+  unfold core. destruct (Vocab.get_relation m (w_ot t) (w_rel t)) as [rd|]; [|reflexivity].
+  rewrite coded_clause_char.
+  destruct (strict_clause (rd_restr rd) (w_user t) (w_cid t)),
+    (cond_any_restriction_of_type (rd_restr rd) (w_user t) (w_cid t)),
+    (nocond_via_plain_restriction (rd_restr rd) (w_user t) (w_cid t)),
+    (if is_tupleset m (w_ot t) (w_rel t) then concrete (w_user t) else true),
+    (cond_clause cds (t_size t) t); reflexivity.
+Qed.
+
+(* completeness: everything the property allows is accepted *)
+Theorem allowed_implies_valid limit w : rt_wf w = true ->
+  allowed_raw e m cds limit w = true -> valid_for_write e m cds limit w = true.
+Proof. intros Hrt H. rewrite (valid_for_write_exact _ _ Hrt), H. reflexivity. Qed.
+
+Lemma no_mix_at t rd :
+  no_cond_kind_mix m = true -> Vocab.get_relation m (w_ot t) (w_rel t) = Some rd ->
+  no_mix_rs (rd_restr rd) = true.
+Proof.
+  intros Hmix Hg. apply get_relation_in in Hg as [Hin _]. unfold no_cond_kind_mix in Hmix.
+  rewrite forallb_forall in Hmix. exact (Hmix _ Hin).
+Qed.
+
+Theorem no_mix_no_lax limit w : no_cond_kind_mix m = true ->
+  lax_cond_raw e m cds limit w = false /\ lax_nocond_raw e m cds limit w = false.
+Proof.
+  intro Hmix. unfold lax_cond_raw, lax_nocond_raw, lax_cond, lax_nocond, allowed_with.
+  destruct (parse e w) as [t|]; [|split; reflexivity].
+  destruct (Vocab.get_relation m (w_ot t) (w_rel t)) as [rd|] eqn:Hg; [|split; reflexivity].
+  rewrite (no_mix_no_cond_any _ _ _ (no_mix_at _ _ Hmix Hg)).
+  rewrite (no_mix_no_nocond_via _ _ _ (no_mix_at _ _ Hmix Hg)). split; reflexivity.
+Qed.
+
+(* soundness where the laxity cannot show *)
+Theorem valid_iff_allowed_no_mix limit w : rt_wf w = true -> no_cond_kind_mix m = true ->
+  valid_for_write e m cds limit w = allowed_raw e m cds limit w.
+Proof.
+  intros Hrt Hmix. rewrite (valid_for_write_exact _ _ Hrt).
+  destruct (no_mix_no_lax limit w Hmix) as [H1 H2]. rewrite H1, H2, !orb_false_r. reflexivity.
+Qed.
+
+End Main.
+
+(* ------------------------------------------------------------------------------------------ *)
+(* G. the Write command: validation precedes every datastore write                             *)
+
+Definition w_result (x : wres * list dscall * store) : wres := fst (fst x).
+Definition w_calls (x : wres * list dscall * store) : list dscall := snd (fst x).
+Definition w_store (x : wres * list dscall * store) : store := snd x.
+
+Definition is_ds_write (c : dscall) : bool := match c with DsWrite _ _ => true | DsReadModel => false end.
+
+Section Cmd.
+Variable e : env.
+Variable m : model.
+Variable cds : cdefs.
+Variable limit maxw : N.
+
+Lemma validate_request_calls deletes writes :
+  existsb is_ds_write (snd (validate_request e m cds limit maxw deletes writes)) = false.
+Proof.
+  unfold validate_request.
+  destruct deletes as [|d ds], writes as [|w ws]; cbn [snd existsb];
+    repeat match goal with |- context [if ?b then _ else _] => destruct b end; reflexivity.
+Qed.
+
+(* any refusal leaves the store as it was *)
+Theorem rejected_write_changes_nothing od om s deletes writes :
+  w_result (write_cmd e m cds limit maxw od om s deletes writes) <> WOk ->
+  w_store (write_cmd e m cds limit maxw od om s deletes writes) = s.
+Proof.
+  unfold write_cmd, w_result, w_store.
+  destruct (validate_request e m cds limit maxw deletes writes) as [r calls].
+  destruct r; cbn [fst snd]; try reflexivity.
+  destruct od, om; cbn [fst snd]; try reflexivity;
+    destruct (ds_write _ _ s deletes writes); cbn [fst snd]; intro H; try reflexivity; contradiction.
+Qed.
+
+Lemma forallb_false_in {A : Type} (f : A -> bool) l x : In x l -> f x = false -> forallb f l = false.
+Proof.
+  intros Hin Hf. destruct (forallb f l) eqn:E; [|reflexivity].
+  rewrite forallb_forall in E. rewrite (E _ Hin) in Hf. discriminate.
+Qed.
+
+(* one invalid tuple: validation_error, no datastore write is issued, nothing changes *)
+Theorem invalid_tuple_rejects_request od om s deletes writes w :
+  In w writes -> valid_for_write e m cds limit w = false ->
+  w_result (write_cmd e m cds limit maxw od om s deletes writes) = WValidation /\
+  w_store (write_cmd e m cds limit maxw od om s deletes writes) = s /\
+  existsb is_ds_write (w_calls (write_cmd e m cds limit maxw od om s deletes writes)) = false.
+Proof.
+  intros Hin Hbad. unfold write_cmd, validate_request, w_result, w_store, w_calls.
+  rewrite (forallb_false_in _ _ _ Hin Hbad). cbn [negb].
+  destruct deletes as [|d ds], writes as [|w0 ws]; try destruct Hin; cbn [fst snd existsb is_ds_write orb];
+    repeat split; reflexivity.
+Qed.
+
+(* a datastore write is issued only after every tuple passed validation *)
+Theorem ds_write_only_after_validation od om s deletes writes :
+  existsb is_ds_write (w_calls (write_cmd e m cds limit maxw od om s deletes writes)) = true ->
+  forallb (valid_for_write e m cds limit) writes = true /\
+  forallb (fun k => is_valid_user (k_user k)) deletes = true.
+Proof.
+  unfold write_cmd, w_calls.
+  assert (Hc := validate_request_calls deletes writes).
+  destruct (validate_request e m cds limit maxw deletes writes) as [r calls] eqn:Hv. cbn [snd] in Hc.
+  destruct r; cbn [fst snd]; try (intro H; congruence).
+  intros _. unfold validate_request in Hv.
+  destruct (forallb (valid_for_write e m cds limit) writes); cbn [negb] in Hv.
+  - destruct (forallb (fun k => is_valid_user (k_user k)) deletes); cbn [negb] in Hv.
+    + split; reflexivity.
+    + destruct deletes, writes; inversion Hv.
+  - destruct deletes, writes; inversion Hv.
+Qed.
+
+Theorem accepted_write_all_valid od om s deletes writes w :
+  w_result (write_cmd e m cds limit maxw od om s deletes writes) = WOk ->
+  In w writes -> valid_for_write e m cds limit w = true.
+Proof.
+  intros Hok Hin. destruct (valid_for_write e m cds limit w) eqn:E; [reflexivity|].
+  destruct (invalid_tuple_rejects_request od om s deletes writes w Hin E) as [H _]. congruence.
+Qed.
+
+End Cmd.
+
+(* ------------------------------------------------------------------------------------------ *)
+(* H. witnesses (closed by computation)                                                        *)
+
+Module Witness.
+Import Coq.Strings.String Coq.Strings.Ascii.
+
+Definition bs (s : string) : bytes := List.map N_of_ascii (list_ascii_of_string s).
+
+(* type user
+   type group   define member: [user]
+   type doc     define viewer: [user, user:* with cnd, group, group#member with cnd, doc#viewer]
+                define parent: [doc]      define inherited: viewer from parent
+   condition cnd(x: int) *)
+Definition we : env :=
+  {| e_types := [(bs "user", 1); (bs "doc", 2); (bs "group", 3)];
+     e_rels := [(bs "viewer", 1); (bs "member", 2); (bs "parent", 3); (bs "inherited", 4)];
+     e_conds := [(bs "cnd", 1)] |}.
+
+Definition mk_r (t : tid) (k : rkind) (c : cid) : restriction := {| r_type := t; r_kind := k; r_cond := c |}.
+
+Definition wm : model :=
+  [ {| td_type := 1; td_rels := [] |};
+    {| td_type := 3; td_rels := [ {| rd_rel := 2; rd_rw := This; rd_restr := [mk_r 1 RObj 0] |} ] |};
+    {| td_type := 2; td_rels :=
+         [ {| rd_rel := 1; rd_rw := This;
+              rd_restr := [mk_r 1 RObj 0; mk_r 1 RWild 1; mk_r 3 RObj 0; mk_r 3 (RSet 2) 1; mk_r 2 (RSet 1) 0] |};
+           {| rd_rel := 3; rd_rw := This; rd_restr := [mk_r 2 RObj 0] |};
+           {| rd_rel := 4; rd_rw := TTU 3 1; rd_restr := [] |} ] |} ].
+
+Definition wcds : cdefs := [(1, [(bs "x", PInt)])].
+
+Definition mk_t (o r u : string) (c : option wcond) : rtuple :=
+  {| rt_obj := bs o; rt_rel := bs r; rt_user := bs u; rt_cond := c |}.
+
+Definition cnd_x1 (size : N) : option wcond :=
+  Some {| wc_name := bs "cnd"; wc_ctx := [(bs "x", KNum true true)]; wc_size := size |}.
+
+(* F4: user:a WITH cnd although only user:* carries cnd *)
+Definition w_f4 : rtuple := mk_t "doc:1" "viewer" "user:a" (cnd_x1 11).
+(* an unconditioned userset although group#member requires cnd: passes through [group] *)
+Definition w_plain : rtuple := mk_t "doc:1" "viewer" "group:1#member" None.
+(* a userset pointing at itself *)
+Definition w_self : rtuple := mk_t "doc:1" "viewer" "doc:1#viewer" None.
+(* an allowed conditioned tuple, once within and once beyond a limit of 64 bytes *)
+Definition w_ok : rtuple := mk_t "doc:1" "viewer" "user:*" (cnd_x1 11).
+Definition w_big : rtuple := mk_t "doc:1" "viewer" "user:*" (cnd_x1 100).
+(* a wildcard on a tupleset relation, an unknown type, a mistyped context *)
+Definition w_ts : rtuple := mk_t "doc:1" "parent" "doc:*" None.
+Definition w_ghost : rtuple := mk_t "doc:1" "viewer" "ghost:1" None.
+Definition w_badctx : rtuple :=
+  mk_t "doc:1" "viewer" "user:*"
+       (Some {| wc_name := bs "cnd"; wc_ctx := [(bs "x", KStr SText)]; wc_size := 12 |}).
+
+Definition s_doc_1 : bytes := bs "doc:1".
+Definition s_doc_wild : bytes := bs "doc:*".
+Definition s_ghost_1 : bytes := bs "ghost:1".
+Definition s_group_1_member : bytes := bs "group:1#member".
+Definition s_user_wild : bytes := bs "user:*".
+Definition s_group_wild_member : bytes := bs "group:*#member".
+Definition s_star : bytes := bs "*".
+Definition s_group_1_viewer : bytes := bs "group:1#viewer".
+
+Definition hyps (w : rtuple) : bool :=
+  env_wf we && restr_wf wm && tupleset_direct wm && cds_wf wcds && rt_wf w.
+
+Lemma hyps_hold : forallb hyps [w_f4; w_plain; w_self; w_ok; w_big; w_ts; w_ghost; w_badctx] = true.
+Proof. vm_compute. reflexivity. Qed.
+
+Lemma f4_accepted_not_allowed :
+  valid_for_write we wm wcds 64 w_f4 = true /\ allowed_raw we wm wcds 64 w_f4 = false /\
+  lax_cond_raw we wm wcds 64 w_f4 = true.
+Proof. vm_compute. repeat split. Qed.
+
+Lemma plain_accepted_not_allowed :
+  valid_for_write we wm wcds 64 w_plain = true /\ allowed_raw we wm wcds 64 w_plain = false /\
+  lax_nocond_raw we wm wcds 64 w_plain = true.
+Proof. vm_compute. repeat split. Qed.
+
+Lemma self_ctx_accepted :
+  valid_ctx_tuple we wm wcds w_self = true /\ valid_for_write we wm wcds 64 w_self = false /\
+  allowed_raw we wm wcds 64 w_self = false.
+Proof. vm_compute. repeat split. Qed.
+
+Lemma big_ctx_accepted :
+  valid_ctx_tuple we wm wcds w_big = true /\ valid_for_write we wm wcds 64 w_big = false /\
+  allowed_raw we wm wcds 64 w_big = false.
+Proof. vm_compute. repeat split. Qed.
+
+Lemma ok_accepted :
+  valid_for_write we wm wcds 64 w_ok = true /\ allowed_raw we wm wcds 64 w_ok = true /\
+  valid_ctx_tuple we wm wcds w_ok = true.
+Proof. vm_compute. repeat split. Qed.
+
+Lemma rejected_classes :
+  validate_write we wm wcds 64 w_ts = Some EInvalidTuple /\
+  validate_write we wm wcds 64 w_ghost = Some ETypeNotFound /\
+  validate_write we wm wcds 64 w_badctx = Some EInvalidCond /\
+  validate_write we wm wcds 64 (mk_t "doc:1" "owner" "user:a" None) = Some ERelNotFound /\
+  validate_write we wm wcds 64 (mk_t "doc:1" "viewer" "anne" None) = Some EInvalidTuple /\
+  validate_write we wm wcds 64 (mk_t "doc:*" "viewer" "user:a" None) = Some EInvalidTuple /\
+  validate_write we wm wcds 64 (mk_t "doc:1" "viewer" "user:*" None) = Some EInvalidCond.
+Proof. vm_compute. repeat split. Qed.
+
+(* a model without kind mix that still has conditions and all three forms *)
+Definition wm2 : model :=
+  [ {| td_type := 1; td_rels := [] |};
+    {| td_type := 3; td_rels := [ {| rd_rel := 2; rd_rw := This; rd_restr := [mk_r 1 RObj 0] |} ] |};
+    {| td_type := 2; td_rels :=
+         [ {| rd_rel := 1; rd_rw := This;
+              rd_restr := [mk_r 1 RObj 0; mk_r 1 RObj 1; mk_r 1 RWild 1; mk_r 1 RWild 0; mk_r 3 (RSet 2) 1] |} ] |} ].
+
+Lemma wm2_no_mix : restr_wf wm2 && tupleset_direct wm2 && no_cond_kind_mix wm2 = true /\
+                   no_cond_kind_mix wm = false.
+Proof. vm_compute. split; reflexivity. Qed.
+
+Lemma wm2_examples :
+  valid_for_write we wm2 wcds 64 w_f4 = true /\ allowed_raw we wm2 wcds 64 w_f4 = true /\
+  valid_for_write we wm2 wcds 64 w_plain = false /\ allowed_raw we wm2 wcds 64 w_plain = false.
+Proof. vm_compute. repeat split. Qed.
+
+(* the command on a store that already holds one tuple *)
+Definition st0 : store := [({| k_obj := bs "doc:9"; k_rel := bs "viewer"; k_user := bs "user:z" |}, [])].
+
+Lemma cmd_examples :
+  (* a batch with one bad tuple: refused before any datastore write *)
+  write_cmd we wm wcds 64 10 OError OError st0 [] [w_ok; w_f4; w_ghost] = (WValidation, [DsReadModel], st0) /\
+  (* a good batch *)
+  w_result (write_cmd we wm wcds 64 10 OError OError st0 [] [w_ok]) = WOk /\
+  List.length (w_store (write_cmd we wm wcds 64 10 OError OError st0 [] [w_ok])) = 2%nat /\
+  (* the same tuple twice in one request *)
+  w_result (write_cmd we wm wcds 64 10 OError OError st0 [] [w_ok; w_ok]) = WDuplicate /\
+  (* over the entity limit *)
+  w_result (write_cmd we wm wcds 64 1 OError OError st0 [key_of w_ts] [w_ok]) = WLimit /\
+  (* deleting a tuple that is not there: the datastore refuses, nothing changes *)
+  write_cmd we wm wcds 64 10 OError OError st0 [key_of w_ok] [] =
+    (WFailedInput, [DsWrite [key_of w_ok] []], st0) /\
+  (* an unknown option is refused after validation, before the datastore *)
+  write_cmd we wm wcds 64 10 OBad OError st0 [] [w_ok] = (WValidation, [DsReadModel], st0) /\
+  write_cmd we wm wcds 64 10 OError OError st0 [] [] = (WInvalidInput, [], st0).
+Proof. vm_compute. repeat split. Qed.
+
+End Witness.
+
+(* contextual tuples follow the rules of Write whenever the two extra rules of Write are moot *)
+Theorem ctx_same_rules_when_moot e m cds limit w :
+  implicit w = false -> ctx_size w <=? limit = true ->
+  valid_ctx_tuple e m cds w = valid_for_write e m cds limit w.
+Proof.
+  intros Hi Hs. rewrite write_vs_ctx, Hi, Hs. cbn [negb]. rewrite !andb_true_r. reflexivity.
+Qed.
+
+(* ------------------------------------------------------------------------------------------ *)
+(* I. the full statement is false of the faithful model                                        *)
+
+Definition all_hyps (e : env) (m : model) (cds : cdefs) (w : rtuple) : bool :=
+  env_wf e && restr_wf m && tupleset_direct m && cds_wf cds && rt_wf w.
+
+(* F4: a conditioned tuple is accepted because ANOTHER form of the user's type carries the condition *)
+Theorem validate_condition_refuted :
+  exists e m cds limit w,
+    all_hyps e m cds w = true /\
+    valid_for_write e m cds limit w = true /\ allowed_raw e m cds limit w = false /\
+    lax_cond_raw e m cds limit w = true.
+Proof.
+  exists Witness.we, Witness.wm, Witness.wcds, 64, Witness.w_f4. vm_compute. repeat split.
+Qed.
+
+(* an unconditioned userset is accepted through a plain restriction of its type *)
+Theorem validate_nocond_refuted :
+  exists e m cds limit w,
+    all_hyps e m cds w = true /\
+    valid_for_write e m cds limit w = true /\ allowed_raw e m cds limit w = false /\
+    lax_nocond_raw e m cds limit w = true.
+Proof.
+  exists Witness.we, Witness.wm, Witness.wcds, 64, Witness.w_plain. vm_compute. repeat split.
+Qed.
+
+(* contextual tuples: a userset pointing at itself, and a context beyond the size limit, are
+   accepted although Write refuses them and the property does not allow them *)
+Theorem ctx_tuple_same_rules_refuted :
+  exists e m cds limit w1 w2,
+    all_hyps e m cds w1 = true /\ all_hyps e m cds w2 = true /\
+    valid_ctx_tuple e m cds w1 = true /\ valid_for_write e m cds limit w1 = false /\
+    allowed_raw e m cds limit w1 = false /\ implicit w1 = true /\
+    valid_ctx_tuple e m cds w2 = true /\ valid_for_write e m cds limit w2 = false /\
+    allowed_raw e m cds limit w2 = false /\ (limit <? ctx_size w2) = true.
+Proof.
+  exists Witness.we, Witness.wm, Witness.wcds, 64, Witness.w_self, Witness.w_big.
+  vm_compute. repeat split.
+Qed.
